@@ -103,7 +103,35 @@ def run(tier):
                 t.append(rng.choice(["a", "Ab", "aB", "AB", "b", "B"]) if j == fpos else rng.choice(["x", "y", None, MISSING, "x|"]))
             tuples.append(tuple(t))
         scen.append(mk(cols, tuples, "tumbling", 0, (fpos, rng.choice(["upper", "lower"]), rng.random() < 0.5), rng))
+    # a batch dropped because user code panicked while its results were built leaves no group behind: the next batch has exactly its own
+    # key tuples, each aggregated over its own rows (C03's poisoned batches, the grouped ones whose user aggregate panics)
+    import C03
+    made = 0
+    while made < (40 if quick else 1500):
+        sc = C03.poison_query(rng, rng.choice([2, 3]))
+        if sc["meta"]["gcols"] and sc["meta"]["poison"]["drop"] == 1:
+            scen.append(sc); made += 1
     seqfam.run_scenarios(res, scen, "TraceBatch", tag="groupby", relayout_p=0.3, retype_p=0.3, rename_p=0.3)
+    # SELECT DISTINCT removes duplicate ROWS, never a group: a key tuple whose aggregate is not a finite number (0 / 0) keeps its row
+    dis = []
+    for _ in range(40 if quick else 1500):
+        groups = ["a", "b", "c", "d"][:rng.choice([3, 4])]
+        idle = set(rng.sample(groups, rng.choice([1, 2])))
+        rows, rid = [], 0
+        for _r in range(rng.choice([7, 9, 11])):
+            rid += 1
+            g = rng.choice(groups)
+            rows.append({"id": rid, "ts": 1000 + rid, "g": g, "v": 0 if g in idle else rng.choice([1, 2, 3, 5]), "w": 0 if g in idle else rng.choice([1, 2, 4])})
+        for g in groups:      # every group occurs
+            rid += 1
+            rows.append({"id": rid, "ts": 1000 + rid, "g": g, "v": 0 if g in idle else 2, "w": 0 if g in idle else 1})
+        n = len(rows)
+        rows.append({"id": n + 1, "ts": 40000, "g": "zz", "v": 1, "w": 1})
+        e = {"t": "bin", "op": "/", "a": {"t": "col", "c": "sum_v"}, "b": {"t": "col", "c": "sum_w"}}
+        meta = {"fam": "postagg", "n": n, "aggdefs": [{"key": "sum_v", "fn": "sum", "arg": "v"}, {"key": "sum_w", "fn": "sum", "arg": "w"}],
+                "sel": [{"al": "r", "e": e}], "gsel": 1, "order": [], "limit": 0, "distinct": 1}
+        dis.append({"meta": meta, "sql": "SELECT DISTINCT g, sum(v) / sum(w) AS r FROM stream GROUP BY g, TumblingWindow('10s') WITH (TIMESTAMP='ts', TIMEUNIT='ms')", "rows": rows})
+    seqfam.run_scenarios(res, dis, "TracePostAgg", tag="distinct-groups", relayout_p=0.3)
     res.cov["exhaustive"] = False
     res.cov["distinct_nontrivial"] = len({json.dumps(s["rows"], sort_keys=True) + s["sql"] for s in scen})
     res.cov["rule"] = ("all batches of <= 3 rows over three 5-value alphabets for one grouping column (exhaustive) plus seeded batches over 0-3 grouping columns (some reported under AS aliases, some named alike up to letter case) "
